@@ -215,9 +215,11 @@ def substitute_terminals(tree, **params):
     # read terminals file only if filename is new
     if not hasattr(substitute_terminals, "fn") \
        or substitute_terminals.fn != params['terminalfile']:
-        substitute_terminals.fn = params['terminalfile']
+        # forget the file loaded before; the new name is only remembered
+        # once its file has been loaded completely
+        substitute_terminals.fn = None
         substitute_terminals.terminals = dict()
-        with io.open(substitute_terminals.fn) as tf:
+        with io.open(params['terminalfile']) as tf:
             for line in tf:
                 line = line.strip().split()
                 # probably no POS tag?
@@ -236,6 +238,7 @@ def substitute_terminals(tree, **params):
                 # throw away stuff after fourth space
                 substitute_terminals.terminals[int(line[0])][int(line[1])] \
                     = (line[2], line[3])
+        substitute_terminals.fn = params['terminalfile']
     print(substitute_terminals.terminals)
     if not tree.data['sid'] in substitute_terminals.terminals:
         return tree
@@ -284,9 +287,11 @@ def insert_terminals(tree, **params):
     # read terminals file only if filename is new
     if not hasattr(insert_terminals, "fn") \
        or insert_terminals.fn != params['terminalfile']:
-        insert_terminals.fn = params['terminalfile']
+        # forget the file loaded before; the new name is only remembered
+        # once its file has been loaded completely
+        insert_terminals.fn = None
         insert_terminals.terminals = dict()
-        with io.open(insert_terminals.fn) as tf:
+        with io.open(params['terminalfile']) as tf:
             for line in tf:
                 line = line.strip().split()
                 if not int(line[0]) in insert_terminals.terminals:
@@ -300,6 +305,7 @@ def insert_terminals(tree, **params):
                 # throw away stuff after fourth space
                 insert_terminals.terminals[int(line[0])][int(line[1])] \
                     = (line[2], line[3])
+        insert_terminals.fn = params['terminalfile']
     if not tree.data['sid'] in insert_terminals.terminals:
         return tree
     for terminal_num in sorted(insert_terminals.terminals[tree.data['sid']],
